@@ -33,6 +33,7 @@ class Lemma:
 class Contract:
     qualname: str
     file: str | None = None  # repo-relative path; None = external (assumed, never verified)
+    src: str | None = None  # name inside the source file when it differs from the registry key
     params: dict[str, str] = field(default_factory=dict)
     returns: str | None = None
     requires: dict[str, str] = field(default_factory=dict)
@@ -55,6 +56,10 @@ class Contract:
     witnesses: dict[str, tuple] = field(default_factory=dict)  # name -> (ghost variable, kind): existential ghost lists
 
     @property
+    def srcname(self) -> str:
+        return self.src or self.qualname
+
+    @property
     def external(self) -> bool:
         return self.file is None
 
@@ -74,6 +79,13 @@ class ClassInfo:
     fields: dict[str, str] = field(default_factory=dict)  # field -> kind text
     file: str | None = None
     init_fields: list[str] | None = None  # dataclass positional order (None: use __init__ contract / inline)
+    src: str | None = None  # class name in the source file when it differs from the registry key
+    field_defaults: dict[str, str] = field(default_factory=dict)
+    optional: tuple = ()  # attributes that may be absent (hasattr is symbolic)
+
+    @property
+    def srcname(self) -> str:
+        return self.src or self.name
 
 
 class Registry:
@@ -116,12 +128,21 @@ class Registry:
         self.contracts[qualname] = c
         return c
 
-    def cls(self, name: str, bases=(), fields=None, file=None, init_fields=None) -> ClassInfo:
-        ci = ClassInfo(name, list(bases), dict(fields or {}), file, init_fields)
+    def cls(self, name: str, bases=(), fields=None, file=None, init_fields=None, src=None, field_defaults=None, optional=()) -> ClassInfo:
+        ci = ClassInfo(name, list(bases), dict(fields or {}), file, init_fields, src, dict(field_defaults or {}), tuple(optional))
         self.classes[name] = ci
         return ci
 
     # -- lookups --------------------------------------------------------------------------------
+    def class_for(self, file: str | None, name: str) -> str | None:
+        """Registry key of the class called `name` in source file `file`."""
+        for key, ci in self.classes.items():
+            if ci.file == file and ci.srcname == name:
+                return key
+        if name in self.classes and self.classes[name].src is None:
+            return name
+        return None
+
     def mro(self, cls: str) -> list[str]:
         out, todo = [], [cls]
         while todo:
